@@ -1,0 +1,28 @@
+//go:build verif
+// +build verif
+
+package moss
+
+import (
+	"os"
+	"time"
+)
+
+// verifSizedFile is a File that only answers Stat().Size().
+type verifSizedFile struct{ size int64 }
+
+type verifFileInfo struct{ size int64 }
+
+func (f verifFileInfo) Name() string       { return "verif" }
+func (f verifFileInfo) Size() int64        { return f.size }
+func (f verifFileInfo) Mode() os.FileMode  { return 0 }
+func (f verifFileInfo) ModTime() time.Time { return time.Time{} }
+func (f verifFileInfo) IsDir() bool        { return false }
+func (f verifFileInfo) Sys() interface{}   { return nil }
+
+func (f *verifSizedFile) ReadAt(p []byte, off int64) (int, error)  { return 0, os.ErrInvalid }
+func (f *verifSizedFile) WriteAt(p []byte, off int64) (int, error) { return 0, os.ErrInvalid }
+func (f *verifSizedFile) Close() error                             { return nil }
+func (f *verifSizedFile) Stat() (os.FileInfo, error)               { return verifFileInfo{f.size}, nil }
+func (f *verifSizedFile) Sync() error                              { return nil }
+func (f *verifSizedFile) Truncate(size int64) error                { return os.ErrInvalid }
